@@ -38,7 +38,7 @@ fn display(n: &MNode) -> String {
 }
 
 /// the move printer on the display text of a tree: the formula sits in J10 (the context cell),
-/// the cut area is exactly J10, the target is L20
+/// the cut area is J10:L12, the target is L20
 fn moved_text(n: &MNode) -> Result<String, String> {
     let text = format!("={}", display(n));
     MODEL.with(|m| {
@@ -48,7 +48,7 @@ fn moved_text(n: &MNode) -> Result<String, String> {
             &text,
             &CellReferenceIndex { sheet: 0, row: c.row, column: c.column },
             &CellReferenceIndex { sheet: 0, row: c.row + DROW, column: c.column + DCOL },
-            &Area { sheet: 0, row: c.row, column: c.column, width: 1, height: 1 },
+            &Area { sheet: 0, row: c.row, column: c.column, width: 3, height: 3 },
         )
         .map(|s| s.strip_prefix('=').unwrap_or(&s).to_string())
     })
@@ -79,10 +79,15 @@ fn target_context() -> CellReferenceRC {
 /// optionally shifting those that point at the cut cell
 fn resolve(n: &Node, ctx: &CellReferenceRC, shift_cut: bool) -> Node {
     let c0 = context();
+    let in_area = |sheet_index: u32, r: i32, c: i32| -> bool {
+        sheet_index == 0 && r >= c0.row && r <= c0.row + 2 && c >= c0.column && c <= c0.column + 2
+    };
+    let abs = |abs_r: bool, abs_c: bool, row: i32, col: i32| -> (i32, i32) {
+        (if abs_r { row } else { row + ctx.row }, if abs_c { col } else { col + ctx.column })
+    };
     let fix = |abs_r: bool, abs_c: bool, row: i32, col: i32, sheet_index: u32| -> (i32, i32) {
-        let r = if abs_r { row } else { row + ctx.row };
-        let c = if abs_c { col } else { col + ctx.column };
-        if shift_cut && sheet_index == 0 && r == c0.row && c == c0.column {
+        let (r, c) = abs(abs_r, abs_c, row, col);
+        if shift_cut && in_area(sheet_index, r, c) {
             (r + DROW, c + DCOL)
         } else {
             (r, c)
@@ -96,10 +101,10 @@ fn resolve(n: &Node, ctx: &CellReferenceRC, shift_cut: bool) -> Node {
             Node::ReferenceKind { sheet_name: sheet_name.clone(), sheet_index: *sheet_index, absolute_row: *absolute_row, absolute_column: *absolute_column, row: r, column: c }
         }
         Node::RangeKind { sheet_name, sheet_index, absolute_row1, absolute_column1, row1, column1, absolute_row2, absolute_column2, row2, column2 } => {
-            // a range moves only if BOTH corners are in the cut area (here: the single cut cell)
-            let (r1, c1) = fix(*absolute_row1, *absolute_column1, *row1, *column1, u32::MAX);
-            let (r2, c2) = fix(*absolute_row2, *absolute_column2, *row2, *column2, u32::MAX);
-            let both = shift_cut && *sheet_index == 0 && r1 == c0.row && c1 == c0.column && r2 == c0.row && c2 == c0.column;
+            // a range moves only if BOTH corners are in the cut area
+            let (r1, c1) = abs(*absolute_row1, *absolute_column1, *row1, *column1);
+            let (r2, c2) = abs(*absolute_row2, *absolute_column2, *row2, *column2);
+            let both = shift_cut && in_area(*sheet_index, r1, c1) && in_area(*sheet_index, r2, c2);
             let (r1, c1, r2, c2) = if both { (r1 + DROW, c1 + DCOL, r2 + DROW, c2 + DCOL) } else { (r1, c1, r2, c2) };
             Node::RangeKind { sheet_name: sheet_name.clone(), sheet_index: *sheet_index, absolute_row1: *absolute_row1, absolute_column1: *absolute_column1, row1: r1, column1: c1, absolute_row2: *absolute_row2, absolute_column2: *absolute_column2, row2: r2, column2: c2 }
         }
@@ -375,6 +380,8 @@ fn eval_paste(req: &str) -> ImplOut {
         let a1 = format!("{}{}", ironcalc_base::expressions::utils::number_to_column(cc).unwrap(), rr);
         let _ = m.set_user_input(0, orow, 8, &format!("={a1}"));
         let _ = m.set_user_input(0, orow, 9, &format!("=SUM(${a1}:{a1})"));
+        let col = ironcalc_base::expressions::utils::number_to_column(cc).unwrap();
+        let _ = m.set_user_input(0, orow, 10, &format!("=SUM({col}${rr}:{col}{rr})"));
         observers.push(orow);
     }
     m.evaluate();
@@ -411,7 +418,7 @@ fn eval_paste(req: &str) -> ImplOut {
             }
         }
     }
-    let obs_before: Vec<String> = observers.iter().map(|o| format!("{:?}|{:?}", m.get_model().get_cell_value_by_index(0, *o, 8), m.get_model().get_cell_value_by_index(0, *o, 9))).collect();
+    let obs_before: Vec<String> = observers.iter().map(|o| format!("{:?}|{:?}|{:?}", m.get_model().get_cell_value_by_index(0, *o, 8), m.get_model().get_cell_value_by_index(0, *o, 9), m.get_model().get_cell_value_by_index(0, *o, 10))).collect();
     let (data, sheet, range) = match clipboard_of(&m) {
         Ok(x) => x,
         Err(e) => {
@@ -467,9 +474,9 @@ fn eval_paste(req: &str) -> ImplOut {
     }
     if is_cut && !overlap {
         // every reference to a cut cell now points at the moved location: observers keep values
-        let obs_after: Vec<String> = observers.iter().map(|o| format!("{:?}|{:?}", model.get_cell_value_by_index(0, *o, 8), model.get_cell_value_by_index(0, *o, 9))).collect();
+        let obs_after: Vec<String> = observers.iter().map(|o| format!("{:?}|{:?}|{:?}", model.get_cell_value_by_index(0, *o, 8), model.get_cell_value_by_index(0, *o, 9), model.get_cell_value_by_index(0, *o, 10))).collect();
         // observers must not themselves be overwritten by the paste
-        let hit = observers.iter().any(|o| *o >= tr && *o < tr + h && (8 >= tc && 8 < tc + w || 9 >= tc && 9 < tc + w));
+        let hit = observers.iter().any(|o| *o >= tr && *o < tr + h && (8 >= tc && 8 < tc + w || 9 >= tc && 9 < tc + w || 10 >= tc && 10 < tc + w));
         // a cut cell that sat on a dependency cycle (e.g. =SUM(C:C) inside column C) is position dependent
         let circular = obs_before.iter().any(|v| v.contains("#CIRC!"));
         if !hit && !circular && obs_before != obs_after {
